@@ -224,3 +224,13 @@ func IteU64(c bool, a, b uint64) uint64 {
 	}
 	return b
 }
+
+// SmallU64 is a value below 2^bits (under the engine it also has a
+// mathematical-integer twin, which keeps math/big arithmetic on it cheap).
+func SmallU64(name string, bits int) uint64 {
+	v := U64(name)
+	if bits < 64 && v >= 1<<uint(bits) {
+		panic("VND-ASSUME-FAIL")
+	}
+	return v
+}
